@@ -45,4 +45,23 @@ else:
     replace = {k: v for k, v in replace.items() if "timerqueue" in k}
     open(os.path.join(work, "verif_order.go"), "w").write("//go:build verif\n\npackage rescache\n\nvar VerifSubsReverse bool\n\nfunc VerifResetOrder() {}\n")
     replace[os.path.join(pkg, "verif_order.go")] = os.path.join(work, "verif_order.go")
+# 3. extended request timers of the NATS adapter: time.AfterFunc -> verifAfterFunc (overlay/verif_timer.go.txt)
+npkg = os.path.join(repo, "nats")
+nsrc = open(os.path.join(npkg, "nats.go")).read()
+nout, k1 = re.subn(r"\btime\.AfterFunc\(", "verifAfterFunc(", nsrc)
+nout, k2 = re.subn(r"\*time\.Timer\b", "verifTimer", nout)
+if k1 and k2:
+    # the import of "time" stays in use (time.Duration etc.); check it does
+    if "time." not in nout.replace('"time"', ""):
+        nout = nout.replace('\t"time"\n', "")
+    for name, txt in (("nats.go", nout), ("verif_timer.go", open(os.path.join(root, "overlay", "verif_timer.go.txt")).read())):
+        dst = os.path.join(work, "nats_" + name)
+        if not os.path.exists(dst) or open(dst).read() != txt:
+            open(dst, "w").write(txt)
+        replace[os.path.join(npkg, name)] = dst
+else:
+    sys.stderr.write("gen_overlay: time.AfterFunc / *time.Timer not found in nats/nats.go (%d, %d); extended timers stay on the real clock\n" % (k1, k2))
+    dst = os.path.join(work, "nats_verif_timer.go")
+    open(dst, "w").write("//go:build verif\n\npackage nats\n\nvar VerifManualTimers bool\n\ntype VerifTimer struct{}\n\nvar VerifOnTimer func(t *VerifTimer)\n\nfunc (t *VerifTimer) Fire() bool { return false }\nfunc (t *VerifTimer) Live() bool { return false }\nfunc (t *VerifTimer) Run()       {}\n")
+    replace[os.path.join(npkg, "verif_timer.go")] = dst
 json.dump({"Replace": replace}, open(os.path.join(root, ".work", "overlay.json"), "w"), indent=1)
